@@ -15,7 +15,7 @@ FO = 'src/operator/mod.rs'
 FN = 'src/network/mod.rs'
 FC = 'src/channel.rs'
 ASSUMPTIONS = [
-    "R-CHAN for Iterate::input_or_feedback / wait_update (now VERIFIED on their real bodies): recv / select return ANY message or a disconnection; a message is tagged with the link it came from (uninterpreted witness from_link); the state receiver exists after setup; a panic (disconnected feedback / state link, a verdict message with != 1 items) does not return (partial correctness). NOT pinned: that a batch obtained from a link is not silently dropped (the receivers have no ghost log), termination",
+    "R-CHAN for Iterate::input_or_feedback / wait_update (VERIFIED on their real bodies): a receiver is a handle with a ghost log of the messages it handed out (interior mutability modelled as &mut: `.as_ref()` -> `.as_mut()` on the two link receivers); recv / select return ANY message or a disconnection and log it; the shared state receiver is read through variants that do not track its own log (recv_ro / select_ro, V-SUBST); the state receiver exists after setup; a panic (disconnected feedback / state link, a verdict message with != 1 items) does not return (partial correctness); termination is not decided",
     "IterationStateHandler is the environment (cross-thread protocol, NOT verified): lock() and wait_sync_state(update) are logged in a ghost event list; wait_sync_state returns the verdict carried by the update",
     "NetworkSender::send appends to the link's ghost log (R-CHAN, `&self` modelled as `&mut`); NetworkReceiver::try_recv returns some message or an error; VecDeque::extend over a message's elements appends them in order (stub extend_from_message; NetworkMessage::into_iter is under contract in units start_next / binary_select)",
     "termination of Iterate::next is not verified (it blocks on the network)",
@@ -42,19 +42,51 @@ impl<In> NetworkReceiver<In> {
     #[verifier::external_body]
     fn try_recv(&self) -> (r: Result<NetworkMessage<In>, RecvErr>) { unimplemented!() }
     // R-CHAN: a blocking receive / a select over two links return ANY message or a disconnection
+    // the state receiver is shared (`&`): its own log is not tracked
     #[verifier::external_body]
-    fn recv(&self) -> (r: Result<NetworkMessage<In>, RecvError>)
-        ensures r matches Ok(m) ==> from_link(*self, m)
+    fn recv_ro(&self) -> (r: Result<NetworkMessage<In>, RecvError>) { unimplemented!() }
+    #[verifier::external_body]
+    fn select_ro<In2>(&self, other: &mut NetworkReceiver<In2>) -> (r: SelectResult<NetworkMessage<In>, NetworkMessage<In2>>)
+        ensures (r matches SelectResult::B(Ok(m)) ==> final(other).taken() == old(other).taken().push(m)), !(r matches SelectResult::B(Ok(_))) ==> final(other).taken() == old(other).taken()
+    { unimplemented!() }
+    // what this receiver has handed out so far (R-CHAN; interior mutability of the channel modelled as &mut on the handle)
+    uninterp spec fn taken(&self) -> Seq<NetworkMessage<In>>;
+    #[verifier::external_body]
+    fn recv(&mut self) -> (r: Result<NetworkMessage<In>, RecvError>)
+        ensures (r matches Ok(m) ==> final(self).taken() == old(self).taken().push(m)), (r is Err ==> final(self).taken() == old(self).taken())
     { unimplemented!() }
     #[verifier::external_body]
-    fn select<In2>(&self, other: &NetworkReceiver<In2>) -> (r: SelectResult<NetworkMessage<In>, NetworkMessage<In2>>)
-        ensures (r matches SelectResult::A(Ok(m)) ==> from_link(*self, m)), (r matches SelectResult::B(Ok(m)) ==> from_link(*other, m))
+    fn select<In2>(&mut self, other: &mut NetworkReceiver<In2>) -> (r: SelectResult<NetworkMessage<In>, NetworkMessage<In2>>)
+        ensures
+            (r matches SelectResult::A(Ok(m)) ==> final(self).taken() == old(self).taken().push(m) && final(other).taken() == old(other).taken()),
+            (r matches SelectResult::B(Ok(m)) ==> final(other).taken() == old(other).taken().push(m) && final(self).taken() == old(self).taken()),
+            ((r matches SelectResult::A(Err(_))) || (r matches SelectResult::B(Err(_)))) ==> final(self).taken() == old(self).taken() && final(other).taken() == old(other).taken(),
     { unimplemented!() }
 }
-// witness that a message was delivered by this link (nothing else can establish it)
-uninterp spec fn from_link<In>(rx: NetworkReceiver<In>, m: NetworkMessage<In>) -> bool;
-spec fn batch_of<In>(rx: Option<NetworkReceiver<In>>, a: Seq<StreamElement<In>>) -> bool {
-    a.len() > 0 ==> rx is Some && exists|m: NetworkMessage<In>| #[trigger] from_link(rx->0, m) && a == msg_data(m)
+// the elements of the messages a receiver handed out between two states (at most one message per call here)
+spec fn flat_msgs<In>(ms: Seq<NetworkMessage<In>>) -> Seq<StreamElement<In>>
+    decreases ms.len()
+{
+    if ms.len() == 0 { Seq::empty() } else { flat_msgs(ms.drop_last()) + msg_data(ms.last()) }
+}
+// `a` is exactly what receiver `n` handed out since it was `o` (a receiver that was dropped after a disconnection handed out nothing more)
+spec fn handed_out<In>(o: Option<NetworkReceiver<In>>, n: Option<NetworkReceiver<In>>, a: Seq<StreamElement<In>>) -> bool {
+    match (o, n) {
+        (Some(r0), Some(r1)) => r1.taken().len() >= r0.taken().len() && r1.taken().take(r0.taken().len() as int) == r0.taken() && a == flat_msgs(r1.taken().skip(r0.taken().len() as int)),
+        (Some(_), None) => a.len() == 0,
+        (None, _) => a.len() == 0,
+    }
+}
+proof fn lemma_flat_one<In>(t0: Seq<NetworkMessage<In>>, m: NetworkMessage<In>)
+    ensures flat_msgs(t0.push(m).skip(t0.len() as int)) == msg_data(m), t0.push(m).take(t0.len() as int) == t0,
+            flat_msgs(t0.skip(t0.len() as int)) == Seq::<StreamElement<In>>::empty(), t0.take(t0.len() as int) == t0
+{
+    let s1 = t0.push(m).skip(t0.len() as int);
+    assert(s1 =~= seq![m]); assert(s1.drop_last() =~= Seq::<NetworkMessage<In>>::empty());
+    assert(flat_msgs(s1.drop_last()) =~= Seq::<StreamElement<In>>::empty());
+    assert(Seq::<StreamElement<In>>::empty() + msg_data(m) =~= msg_data(m));
+    assert(t0.push(m).take(t0.len() as int) =~= t0);
+    assert(t0.skip(t0.len() as int) =~= Seq::<NetworkMessage<In>>::empty()); assert(t0.take(t0.len() as int) =~= t0);
 }
 // a panic does not return: nothing has to hold afterwards (partial correctness; fail-stop is C20, not decided here)
 #[verifier::external_body]
@@ -113,8 +145,9 @@ spec fn appended<T>(o: Seq<T>, n: Seq<T>, a: Seq<T>) -> bool { n == o + a }
 IOF_SPEC = r'''
         requires old(self).ready(),
         ensures final(self).same_but_stashes(old(self)),                                                    // #obl:input_or_feedback.touches_only_the_two_stashes
+            final(self).input_receiver is Some ==> old(self).input_receiver is Some,
             exists|a: Seq<StreamElement<Out>>, b: Seq<StreamElement<Out>>| #[trigger] appended(old(self).input_stash@, final(self).input_stash@, a) && #[trigger] appended(old(self).feedback_content@, final(self).feedback_content@, b)
-                && batch_of(old(self).input_receiver, a) && batch_of(old(self).feedback_receiver, b),   // #obl:input_or_feedback.each_links_batch_goes_to_its_own_stash_whole_in_order
+                && handed_out(old(self).input_receiver, final(self).input_receiver, a) && handed_out(old(self).feedback_receiver, final(self).feedback_receiver, b),   // #obl:input_or_feedback.exactly_what_each_link_handed_out_goes_to_its_own_stash_in_order
         decreases (if old(self).input_receiver is Some { 1int } else { 0int }),
 '''
 WAIT_SPEC = r'''
@@ -302,18 +335,33 @@ def build(x):
     # ---- the two functions that talk to the links (formerly used through assumed contracts)
     iof = x.method(F, 'Iterate', 'input_or_feedback')
     iof.sub('V-SUBST', r'Err\(Disconnected\)', 'Err(RecvError::Disconnected)', detail='`use RecvError::Disconnected` variant import spelled out')
+    iof.sub('V-SUBST', r'self\.(feedback_receiver|input_receiver)\.as_ref\(\)', r'self.\1.as_mut()', detail='R-CHAN: the receiver handles are borrowed mutably (ghost log of what they handed out)', must=True)
     def _ext(m):
         q, v = m.group(1), m.group(2)
-        o = 'feedback_content' if q == 'input_stash' else 'input_stash'
-        g0 = {'input_stash': 'is0', 'feedback_content': 'fc0'}
-        return (f"let ghost __m = msg_data({v}); extend_from_message(&mut self.{q}, {v}); "
-                f"proof {{ assert(appended({g0[q]}, self.{q}@, __m)); assert(self.{o}@ == {g0[o]}); }}")
+        if q == 'input_stash':
+            return (f"let ghost __gm = {v}; let ghost __m = msg_data({v}); extend_from_message(&mut self.input_stash, {v}); "
+                    f"proof {{ assert(appended(is0, self.input_stash@, __m)); assert(self.feedback_content@ == fc0); lemma_flat_one(ti0, __gm); lemma_flat_one(tf0, __gm); assert(handed_out(old(self).input_receiver, self.input_receiver, __m));   // #obl:input_or_feedback.a_batch_goes_to_the_stash_of_the_link_it_came_from\n assert(handed_out(old(self).feedback_receiver, self.feedback_receiver, Seq::empty())); }}")
+        return (f"let ghost __gm = {v}; let ghost __m = msg_data({v}); extend_from_message(&mut self.feedback_content, {v}); "
+                f"proof {{ assert(appended(fc0, self.feedback_content@, __m)); assert(self.input_stash@ == is0); lemma_flat_one(tf0, __gm); lemma_flat_one(ti0, __gm); assert(handed_out(old(self).feedback_receiver, self.feedback_receiver, __m));   // #obl:input_or_feedback.a_batch_goes_to_the_stash_of_the_link_it_came_from\n assert(handed_out(old(self).input_receiver, self.input_receiver, Seq::empty())); }}")
     iof.sub('V-SUBST', r'self\.(input_stash|feedback_content)\.extend\((\w+)\);', _ext, detail='`q.extend(msg)` -> stub extend_from_message (the batch appended in order)')
-    iof.sub('V-SUBST', r'self\.feedback_content\.extend\((\w+)\.recv\(\)\.unwrap\(\)\);', r'let __msg = match \1.recv() { Ok(m) => m, Err(_) => panic_no_return_val() }; let ghost __m = msg_data(__msg); extend_from_message(&mut self.feedback_content, __msg); proof { assert(appended(fc0, self.feedback_content@, __m)); assert(self.input_stash@ == is0); }', detail='`q.extend(rx.recv().unwrap())` -> `let m = match rx.recv() { Ok(m) => m, Err(_) => panic }; extend_from_message(q, m)` (definition of unwrap; a panic does not return)', must=True)
+    iof.sub('V-SUBST', r'self\.feedback_content\.extend\((\w+)\.recv\(\)\.unwrap\(\)\);', r'let __msg = match \1.recv() { Ok(m) => m, Err(_) => panic_no_return_val() }; let ghost __gm = __msg; let ghost __m = msg_data(__msg); extend_from_message(&mut self.feedback_content, __msg); proof { assert(appended(fc0, self.feedback_content@, __m)); assert(self.input_stash@ == is0); lemma_flat_one(tf0, __gm); assert(handed_out(old(self).feedback_receiver, self.feedback_receiver, __m)); assert(handed_out(old(self).input_receiver, self.input_receiver, Seq::empty())); }', detail='`q.extend(rx.recv().unwrap())` -> `let m = match rx.recv() { Ok(m) => m, Err(_) => panic }; extend_from_message(q, m)` (definition of unwrap; a panic does not return)', must=True)
     iof.sub('V-ASSERT', r'panic!\("feedback_receiver disconnected!"\);', 'panic_no_return();', detail='panic!(..) -> panic_no_return() (ensures false: a panic does not return)', must=True)
+    iof.sub('V-SPEC', r'self\.input_receiver = None;\s*self\.input_or_feedback\(\);', '''proof { lemma_flat_one(tf0, arbitrary()); } self.input_receiver = None; let ghost __mid = *self;
+                    self.input_or_feedback();
+                    proof {
+                        let (a2, b2) = choose|a: Seq<StreamElement<Out>>, b: Seq<StreamElement<Out>>| #[trigger] appended(__mid.input_stash@, self.input_stash@, a) && #[trigger] appended(__mid.feedback_content@, self.feedback_content@, b)
+                            && handed_out(__mid.input_receiver, self.input_receiver, a) && handed_out(__mid.feedback_receiver, self.feedback_receiver, b);
+                        assert(a2.len() == 0); assert(self.input_receiver is None);
+                        assert(__mid.feedback_receiver->0.taken() == tf0);
+                        assert(handed_out(old(self).feedback_receiver, self.feedback_receiver, b2));
+                        assert(handed_out(old(self).input_receiver, self.input_receiver, a2));
+                        assert(appended(is0, self.input_stash@, a2)); assert(appended(fc0, self.feedback_content@, b2));
+                    }''', detail='ghost snapshot and proof hints around the recursive call (call text verbatim)', must=True)
     iof.add_spec(IOF_SPEC)
     iof.insert_at_body_start('''
         let ghost is0 = self.input_stash@; let ghost fc0 = self.feedback_content@;
+        let ghost ti0 = if self.input_receiver is Some { self.input_receiver->0.taken() } else { Seq::empty() };
+        let ghost tf0 = self.feedback_receiver->0.taken();
         proof { assert(appended(is0, is0, Seq::empty())) by { assert(is0 + Seq::<StreamElement<Out>>::empty() =~= is0); }
                 assert(appended(fc0, fc0, Seq::empty())) by { assert(fc0 + Seq::<StreamElement<Out>>::empty() =~= fc0); } }''')
     wu = x.method(F, 'Iterate', 'wait_update'); wu.name_result('r')
@@ -323,7 +371,9 @@ def build(x):
     wu.sub('V-ASSERT', r'panic!\("state_receiver disconnected!"\);', 'panic_no_return_val()', detail='panic!(..) -> panic_no_return() (ensures false: a panic does not return)', must=True)
     wu.sub('V-ASSERT', r'(\w+) => unreachable!\((?:[^()]|\((?:[^()]|\([^()]*\))*\))*\),', r'\1 => { panic_no_return(); }', detail='unreachable!() arm -> panic_no_return()', flags=re.S, must=True)
     wu.sub('V-SUBST', r'rust_panic\(\)', 'panic_no_return()', detail='assert!(state_msg.num_items() == 1): a violated assertion panics and does not return (R-PROTO: the leader sends one verdict per message)')
-    wu.sub('V-COMB', r'(\w+)\.recv\(\)\.unwrap\(\)', r'match \1.recv() { Ok(m) => m, Err(_) => panic_no_return_val() }', detail='`rx.recv().unwrap()` -> `match rx.recv() { Ok(m) => m, Err(_) => panic }` (definition of unwrap; a panic does not return)', must=True)
+    wu.sub('V-COMB', r'(\w+)\.recv\(\)\.unwrap\(\)', r'match \1.recv_ro() { Ok(m) => m, Err(_) => panic_no_return_val() }', detail='`rx.recv().unwrap()` -> `match rx.recv() { Ok(m) => m, Err(_) => panic }` (definition of unwrap; a panic does not return)', must=True)
+    wu.sub('V-SUBST', r'self\.input_receiver\.as_ref\(\)', 'self.input_receiver.as_mut()', detail='R-CHAN: the input receiver handle is borrowed mutably (ghost log)', must=True)
+    wu.sub('V-SUBST', r'(\w+)\.select\((\w+)\)', r'\1.select_ro(\2)', detail='select on the (shared) state receiver: model variant that logs only the other receiver')
     wu.add_spec(WAIT_SPEC)
     wu.text = '#[verifier::exec_allows_no_decreases_clause]\n' + wu.text
     wu.insert_at_body_start('\n        let ghost mut ga: Seq<StreamElement<Out>> = Seq::empty();\n        proof { assert(old(self).input_stash@ + ga =~= self.input_stash@); }')
